@@ -432,7 +432,7 @@ func c17Check(e *c17Env, f c17Family, o c17Output, s c17Script, bl *c17Baseline)
 var (
 	c17env       *c17Env
 	c17baselines = map[string]*c17Baseline{}
-	c17sigSeen   = map[string]bool{}
+	c17sigSeen   = map[string]int{}
 )
 
 func c17GetEnv() *c17Env {
@@ -447,6 +447,9 @@ func c17GetEnv() *c17Env {
 	e, err := c17NewEnv(dir)
 	if err != nil {
 		fmt.Fprintln(os.Stderr, "C17: cannot set up server:", err)
+		if !evid.IsWorker() {
+			os.RemoveAll(base) // replay / bench: nobody else cleans up
+		}
 		os.Exit(3)
 	}
 	c17env = e
@@ -518,10 +521,18 @@ func c17RunCase(e *c17Env, f c17Family, o c17Output, s c17Script, r *evid.Run) {
 		return
 	}
 	for _, fd := range finds {
-		first := !c17sigSeen[fd.Sig]
-		reruns := 1
-		if first {
+		// re-execution before recording: 5x for the first occurrence of a defect class in this worker
+		// (that one carries the message and the replay case), 1x for the next 20, after that the class
+		// is established as reproducible here and further occurrences are only counted
+		seen := c17sigSeen[fd.Sig]
+		c17sigSeen[fd.Sig] = seen + 1
+		first := seen == 0
+		reruns := 0
+		switch {
+		case first:
 			reruns = 5
+		case seen <= 20:
+			reruns = 1
 		}
 		for i := 0; i < reruns; i++ {
 			_, again, m2 := c17Check(e, f, o, s, bl)
@@ -532,7 +543,6 @@ func c17RunCase(e *c17Env, f c17Family, o c17Output, s c17Script, r *evid.Run) {
 		}
 		rep, msg := cs, fd.Msg
 		if first {
-			c17sigSeen[fd.Sig] = true
 			// shrink: drop cuts / the Done content while the same defect class is still observed
 			cur := s
 			for changed := true; changed; {
